@@ -106,6 +106,7 @@ fn finish(args: &Args, prop: &str, level: &str, rule: &str, results: Vec<(usize,
             }
         }
     }
+    report_known_findings(prop);
     let mut code = 0;
     let mut nviol = 0;
     if let Some(v) = violation {
@@ -278,6 +279,10 @@ fn c02_body(args: &Args, prop: &str, idx: usize, rng: &mut Rng, case: &Case, c: 
                 stats.aborted += 1;
                 continue;
             }
+            if let Some(id) = known_match(&case, &v) {
+                stats.probe(&format!("known-finding:{}", id), 1);
+                continue;
+            }
             out.violation = Some(mk_replay(args, prop, idx, "party", &case, c, junk, dealer_seed, cfg, &r.choices, v));
             break;
         }
@@ -340,6 +345,8 @@ fn c01_body(args: &Args, prop: &str, idx: usize, rng: &mut Rng, case: &Case, c: 
         if let Some(v) = viol {
             if is_abort(&v) {
                 stats.aborted += 1;
+            } else if let Some(id) = known_match(&case, &v) {
+                stats.probe(&format!("known-finding:{}", id), 1);
             } else {
                 let mut cfg = RunCfg::control(seed);
                 cfg.parties = 1;
@@ -374,6 +381,10 @@ fn c01_body(args: &Args, prop: &str, idx: usize, rng: &mut Rng, case: &Case, c: 
             if let Some(v) = v {
                 if is_abort(&v) {
                     stats.aborted += 1;
+                    continue;
+                }
+                if let Some(id) = known_match(&case, &v) {
+                    stats.probe(&format!("known-finding:{}", id), 1);
                     continue;
                 }
                 out.violation = Some(mk_replay(args, prop, idx, "party", &case, c, &true_junk, dealer_seed, &cfg, &r.choices, v));
